@@ -302,9 +302,20 @@ def c08(ctx):
     events = events + sev
     for i, r in srej.items():
         rejects[base + i] = r
+    # keys: the same COSE_Key always encodes to the same deterministic bytes, which the key decoder accepts and re-encodes identically
+    kcases = gen(ctx, "Gen_C14", cfgtext(invariants=["Emit"], constants=dict(ToySize=1)), timeout=1200, heap="8g") + harness(ctx, ["drive", "keyrt"])
+    kev = harness(ctx, ["exec", "keyrt"], kcases)
+    mine = ("conversion-step-fails-UnmarshalCBOR", "conversion-step-fails-MarshalCBOR", "key-encoding-not-reproducible", "serialised-key-not-deterministic-cbor",
+            "decoded-key-does-not-reencode-to-the-same-bytes", "serialised-key-is-not-a-cbor-map")
+    base = len(events)
+    events = events + kev
+    for i, r in judge(ctx, "Trace_C14", kev).items():
+        r = [x for x in r if x in mine]
+        if r:
+            rejects[base + i] = r
     return report(ctx, events, rejects,
-                  nontrivial=lambda e: e.get("enc") == "ok" or "steps" in e,
-                  key=lambda e: json.dumps(e["steps"]) if "steps" in e else (e["struct"], json.dumps(e["m"], sort_keys=True)),
+                  nontrivial=lambda e: e.get("enc") == "ok" or "steps" in e or e.get("stage") == "done",
+                  key=lambda e: json.dumps(e["steps"]) if "steps" in e else (e["curve"], tuple(e["d"]), json.dumps(e["extras"], sort_keys=True)) if "curve" in e else (e["struct"], json.dumps(e["m"], sort_keys=True)),
                   rule="TLC enumerates multi-entry header buckets (subsets of a pool whose bytewise key order disagrees with insertion order, "
                        "mixed Go integer spellings, nested maps/arrays, countersignature values) and the C13 header grid, embedded in every "
                        "structure; the real encoder runs 6 times in each of 2 processes; TLC judges: bytes identical, equal to the specification's "
@@ -326,11 +337,11 @@ def wire_cases(ctx, mode, algs, depth, bases, inv=("Emit",), mutdepth=1):
 def wire_respell_cases(ctx):
     cases = []
     if ctx.quick():
-        cases += wire_cases(ctx, "respell", [7], 1, list(range(1, 18)) + [20, 21], inv=("StaysConforming", "SizedBaseOK", "Emit"))
+        cases += wire_cases(ctx, "respell", [7], 1, list(range(1, 18)) + [20, 21, 22, 23], inv=("StaysConforming", "SizedBaseOK", "Emit"))
         cases += wire_cases(ctx, "respell", [6, 36], 1, [1, 6], inv=("StaysConforming", "Emit"))
         cases += wire_cases(ctx, "respell", [7], 2, [1, 4, 5, 7, 8, 17], inv=("StaysConforming", "Emit"))
     else:
-        cases += wire_cases(ctx, "respell", [6, 7, 34, 35, 36, 37, 38], 1, list(range(1, 18)) + [20, 21], inv=("StaysConforming", "SizedBaseOK", "Emit"))
+        cases += wire_cases(ctx, "respell", [6, 7, 34, 35, 36, 37, 38], 1, list(range(1, 18)) + [20, 21, 22, 23], inv=("StaysConforming", "SizedBaseOK", "Emit"))
         cases += wire_cases(ctx, "respell", [7], 2, list(range(1, 11)) + [15, 16, 17], inv=("StaysConforming", "Emit"))
     seen, out = set(), []
     for c in cases:
@@ -442,7 +453,7 @@ def c04(ctx):
     events, rejects = with_model(ctx, "C04", events, rejects)
     return report(ctx, events, rejects,
                   nontrivial=lambda e: True,
-                  key=lambda e: json.dumps(e["acts"]) if "acts" in e else json.dumps([e["struct"], e["flow"], e.get("pre"), e["P"], e["alg"], e["steps"][-1].get("extnil"), e["ext"]]),
+                  key=lambda e: json.dumps(e["acts"]) if "acts" in e else json.dumps([e["struct"], e["flow"], e.get("pre"), e.get("ua"), e["P"], e["alg"], e["steps"][-1].get("extnil"), e["ext"]]),
                   rule="TLC enumerates the algorithm grid: structure (Sign1, untagged, Signature, Countersignature, Sign1/Sign1Untagged helpers) x flow "
                        "(sign+marshal, verify constructed, verify decoded) x header alg (absent, 10 integers incl. int64 min/max under 8 Go value types, "
                        "text, bstr, array, nil, uint64 2^64-7) x Go spelling of the label x signer/verifier algorithm (-7, -36, private-use -65537 and 5, "
@@ -462,12 +473,12 @@ def c01_cases(ctx):
         return gen(ctx, "Gen_C01", cfgtext(invariants=["Emit"], constants=consts), timeout=3000, heap="8g")
     if ctx.quick():
         cases += g([-7, -8], ALL_FLOWS, [0, 1, 24, 256], [1, 2, 3, 4])
-        cases += g([-7], ["msg", "helper", "sign", "cs"], [1], [7])
+        cases += g([-7], ["msg", "helper", "sign", "cs"], [1], [7, 9, 10])
         cases += g([-7, -8], ["msg", "detached", "helper", "sigalone"], [1], [8])
         cases += g([-7], ["msg", "detached", "helper"], [23, 255, 65535, 65536], [2, 5, 6])
         cases += g([-35, -36, -37, -38, -39], ["msg", "sign", "cs", "cs0", "cslist"], [2], [1, 4])
     else:
-        cases += g([-7, -8, -35, -36], ALL_FLOWS, [0, 1, 23, 24, 255, 256], [1, 2, 3, 4, 5, 6, 7, 8])
+        cases += g([-7, -8, -35, -36], ALL_FLOWS, [0, 1, 23, 24, 255, 256], [1, 2, 3, 4, 5, 6, 7, 8, 9, 10])
         cases += g([-37, -38, -39], ALL_FLOWS, [0, 24, 256], [1, 2, 4])
         cases += g([-7, -8, -37], ["msg", "detached", "helper", "sign"], [65535, 65536], [2, 5, 6])
     return cases
@@ -520,7 +531,7 @@ def c11(ctx):
     events, rejects = with_sg_model(ctx, "C11", events, rejects)
     return report(ctx, events, rejects,
                   nontrivial=lambda e: "acts" in e or e["n"] > 0,
-                  key=lambda e: json.dumps(e["acts"]) if "acts" in e else json.dumps([e["flow"], e["n"], e.get("dec"), e.get("vl"), e.get("c"), e.get("hole"), e.get("j"), e.get("what"), e.get("nc")]),
+                  key=lambda e: json.dumps(e["acts"]) if "acts" in e else json.dumps([e["flow"], e["n"], e.get("dec"), e.get("vl"), e.get("c"), e.get("hole"), e.get("j"), e.get("what"), e.get("nc"), e.get("pos")]),
                   rule="TLC enumerates COSE_Sign programs: n = 0..N signers of three algorithm families, signing, serialisation, optional wire round trip, "
                        "every subset of slots corrupted (garbage / emptied / overwritten with another slot's signature), verification with every permutation "
                        "class of verifiers and counts n-1, n, n+1; wire images with zero or empty signatures; symbolic signers/verifiers record every call; TLC "
@@ -722,7 +733,7 @@ def c19(ctx):
     cases = gen(ctx, "Gen_C19", cfgtext(invariants=["ImagesAsIntended", "Emit"], constants=consts), timeout=3000, heap="8g")
     if not ctx.quick():
         cases += gen(ctx, "Gen_C19", cfgtext(invariants=["Emit"], constants=dict(MaxLen=5, DecKinds=tlaset(["sign", "sign1"]))), timeout=3000, heap="12g")
-    events = harness(ctx, ["exec", "memflow"], cases, env=dict(VERIF_SERIAL="1"))
+    events = harness(ctx, ["exec", "memflow"], cases, env=dict(VERIF_SERIAL="1", VERIF_NORECV="1"))
     rejects = judge(ctx, "Trace_C19", events, per_shard=600)
     events, rejects = with_model(ctx, "C19", events, rejects)
     return report(ctx, events, rejects,
@@ -788,7 +799,7 @@ def c18(ctx):
     stress = []
     iters = 150 if ctx.quick() else 1500
     for ops in (["verify", "marshal", "verifycs", "verifycs0"], ["verifysign", "marshalsign", "verifyhenv", "keyverifier", "keymarshal", "marshalcs"], ["sign", "verify", "marshal"],
-                ["signbuiltin", "verifybuiltin", "verify"]):
+                ["signbuiltin", "verifybuiltin", "verify"], ["verifyfailown", "verifysign"]):
         for dec in (False, True):
             stress.append(dict(ops=ops, decoded=dec, workers=8, iters=iters))
     events += race_run(ctx, stress)
@@ -834,6 +845,7 @@ def c06(ctx):
         ctx.notes["key_cases_generated"], ctx.notes["header_images_generated"] = len(keys), len(hdrs)
         keys, hdrs = rnd.sample(keys, min(len(keys), 40000)), rnd.sample(hdrs, min(len(hdrs), 15000))
     cases += keys + hdrs
+    cases += [dict(bytes=c["bytes"], src="tlc-wide") for c in gen(ctx, "Gen_Wide", cfgtext(invariants=["Emit"]), timeout=600)]
     cases += harness(ctx, ["drive", "nopanic"])
     cases += [dict(bytes=[], src="tiny")] + [dict(bytes=[a], src="tiny") for a in range(256)] + [dict(bytes=[a, b], src="tiny") for a in range(256) for b in range(256)]
     seen, uniq = set(), []
